@@ -25,7 +25,7 @@ OPS = {
     "AnyUfuncOut": ("aa", 1),
     "MkField": ("n", 3), "MkFieldAny": ("a", 2), "FieldFull": ("v", 2), "FieldCast": ("f", 1),
     "FieldVal": ("f", 1), "FieldRaw": ("f", 1), "FieldAsNumpy": ("f", 1), "FieldValRw": ("f", 1),
-    "FieldAsNumpyRw": ("f", 1), "FieldAdd": ("ff", 2), "MkDiag": ("f", 2),
+    "FieldAsNumpyRw": ("f", 1), "FieldAdd": ("ff", 2), "FieldClone": ("f", 3), "MkDiag": ("f", 2),
 }
 EXN = {"ValueError": "EValue", "TypeError": "EType", "IndexError": "EIndex"}
 
@@ -193,6 +193,12 @@ class Runner:
                 raise RuntimeError("generator must not combine fields on different domains")
             h = (f + g) if var == 0 else f.unite(g)
             return ("fld", self.reg_field(h, True))
+        if k == "FieldClone":
+            import copy
+            import pickle
+            f = flds[a[0]]
+            g = [lambda: pickle.loads(pickle.dumps(f)), lambda: pickle.loads(pickle.dumps(f, 0)), lambda: copy.deepcopy(f)][var]()
+            return ("fld", self.reg_field(g, True))
         if k == "MkDiag":
             f = flds[a[0]]
             op = ift.makeOp(f) if var == 0 else ift.DiagonalOperator(f)
@@ -318,6 +324,8 @@ def systematic():
         "MkField_ctor_subclass": [mk("NewArr", [1, 2], var=1), mk("MkField", 0, var=0)],
         "MkFieldAny_subclass": [mk("NewArr", [1, 2], var=1), mk("MkAny", 0), mk("MkFieldAny", 0, var=0)],
         "MkField_readonly": [mk("NewArrRO", [1, 2]), mk("MkField", 0, var=2)],
+        "FieldClone_pickle": [mk("NewArr", [1, 2]), mk("MkField", 0, var=1), mk("FieldClone", 0, var=0)],
+        "FieldClone_deepcopy": [mk("FieldFull", 3), mk("FieldClone", 0, var=2)],
         "FieldFull": [mk("FieldFull", 3)],
         "FieldAdd": [mk("FieldFull", 3), mk("FieldAdd", 0, 0), mk("FieldCast", 1)],       # attack field 1/2
         "view_first": [mk("NewArr", [1, 2]), mk("NdView", 0), mk("MkField", 0, var=1)],   # inadmissible
@@ -365,7 +373,7 @@ def random_history(rng, L, n):
     r = Runner(L)
     ops = []
     names = list(OPS)
-    w = {"NewArr": 3, "NewArrRO": 1, "MkField": 4, "MkFieldAny": 3, "NdWrite": 4, "AnySetItem": 3, "NdIAdd": 2, "AnyIAdd": 2,
+    w = {"NewArr": 3, "NewArrRO": 1, "FieldClone": 2, "MkField": 4, "MkFieldAny": 3, "NdWrite": 4, "AnySetItem": 3, "NdIAdd": 2, "AnyIAdd": 2,
          "AnyUfuncOut": 2, "NdView": 2, "AnyView": 2, "AnySame": 2, "FieldRaw": 2, "FieldVal": 2, "MkAny": 2}
     p = np.array([w.get(k, 1) for k in names], dtype=float)
     p /= p.sum()
@@ -512,7 +520,24 @@ def probe_list():
         g = ift.Field(ift.DomainTuple.scalar_domain(), s0)
         return {"observe": lambda: [tl(f.raw), tl(g.raw)], "handles": [src, f.raw, f.val, s0, g.raw, g.val]}
 
+    def p_clones():
+        import copy
+        import pickle
+        f = ift.Field.from_raw(d1, np.array([1., 2., 3.]))
+        c = ift.Field.from_raw(d1, np.array([1 + 1j, 2, 3j]))
+        mf = ift.MultiField.from_dict({"a": f, "b": c})
+        g = [pickle.loads(pickle.dumps(f)), pickle.loads(pickle.dumps(f, 0)), copy.deepcopy(f), copy.copy(f),
+             pickle.loads(pickle.dumps(c)), copy.deepcopy(c.real), pickle.loads(pickle.dumps(mf))["a"],
+             copy.deepcopy(mf)["b"], copy.copy(mf)["a"], pickle.loads(pickle.dumps(ift.full(d1, 2.)))]
+        av = [pickle.loads(pickle.dumps(f.val)), copy.deepcopy(f.val)]
+        mo = pickle.loads(pickle.dumps(ift.makeOp(f)))
+        x = ift.full(d1, 1.)
+        return {"observe": lambda: [tl(z.raw.view(float)) for z in g] + [tl(z.val) for z in av] + [tl(mo(x).raw)],
+                "handles": [z.raw for z in g] + [z.val for z in g] + av + [z.val for z in av]
+                + [getattr(mo, "_ldiag", f.val)]}
+
     return [
+        P("FieldClone (pickle / copy.deepcopy / copy.copy of Field, MultiField, AnyArray, DiagonalOperator)", p_clones),
         P("Field.from_raw(float ndarray)", p_from_raw(d1, lambda: np.array([1., 2., 3.]), ift.Field.from_raw)),
         P("makeField(2-D ndarray)", p_from_raw(d2, lambda: np.arange(4.).reshape(2, 2), ift.makeField)),
         P("Field.from_raw(AnyArray)", p_from_raw(d1, lambda: ift.AnyArray(np.array([1., 2., 3.])), ift.Field.from_raw)),
@@ -705,6 +730,14 @@ def ufunc_at_probe():
     return changed
 
 
+def clone_loses_write_protection():
+    """the defect of finding C07-F3: a pickled / deep-copied field comes back with a writeable array"""
+    import pickle
+    import nifty.cl as ift
+    f = ift.Field.from_raw(ift.RGSpace(2), np.array([1., 2.]))
+    return bool(pickle.loads(pickle.dumps(f)).raw.flags.writeable)
+
+
 def run_grid(ctx_dir, only=None):
     out = []
     for name, n, fail in source_grid(ctx_dir):
@@ -746,8 +779,15 @@ class C07(C.Check):
             else:
                 checks.append(check_term(L, ops, steps))
         bad = C.eval_cases(self.prop, "corr", HEADER, checks, shard=150, jobs=6)
+        clone_defect = clone_loses_write_protection() if bad else False
         for i in bad[:3]:
             rr = self.runs[i]
+            if clone_defect and any(o["op"] == "FieldClone" for o in rr["ops"]):
+                # the disagreement lies inside finding C07-F3 (reported by the oracle as failing input)
+                res.add_broken("correspondence", "history with FieldClone vs coq/C07/Model.v (finding C07-F3)",
+                               {"L": rr["L"], "ops": rr["ops"]})
+                res.broken[-1]["covered_by_known"] = True
+                continue
             res.add_broken("correspondence", "history vs coq/C07/Model.v",
                            {"L": rr["L"], "ops": rr["ops"], "results": [s["res"] for s in rr["steps"]],
                             "adm": [s["adm"] for s in rr["steps"]], "last_snapshot": rr["steps"][-1]["snap"] if rr["steps"] else None})
@@ -764,7 +804,7 @@ class C07(C.Check):
                 opcount[o["op"]] = opcount.get(o["op"], 0) + 1
         res.coverage.update({
             "evaluations": len(cases), "distinct_nontrivial": len(sigs),
-            "rule": "histories of public operations (27 kinds, several API variants each): %d from corpus, constructor x handle x write-route grid (L=2), random histories of length 3..%d over L in 1..3; non-trivial = creates a field and contains at least one write that raised; distinct by (L, op list)" % (ncorp, 12 if ctx.quick else 30),
+            "rule": "histories of public operations (28 kinds, several API variants each): %d from corpus, constructor x handle x write-route grid (L=2), random histories of length 3..%d over L in 1..3; non-trivial = creates a field and contains at least one write that raised; distinct by (L, op list)" % (ncorp, 12 if ctx.quick else 30),
             "samples": [{"L": rr["L"], "ops": [[o["op"]] + o["args"] for o in rr["ops"]], "results": [list(s["res"]) for s in rr["steps"]]}
                         for rr in self.runs[ncorp + 3:ncorp + 5]],
             "input_distribution": {"ops": opcount, "steps": sum(len(rr["ops"]) for rr in self.runs),
@@ -792,7 +832,8 @@ class C07(C.Check):
             n += k
             if f and nfail < 6:
                 nfail += 1
-                res.add_failing({"what": "field value changed", "ctor": name, "route": "probe/%s/%d" % (f["handle_type"], f["route"])},
+                res.add_failing({"what": "field value changed", "ctor": "FieldClone" if name.startswith("FieldClone") else name,
+                                 "route": "probe/%s/%d" % (f["handle_type"], f["route"])},
                                 "probe '%s': value changed after write route %d through handle %d (%s)" % (
                                     name, f["route"], f["handle"], f["handle_type"]),
                                 {"kind": "probe", "name": name})
